@@ -39,6 +39,11 @@
  *   BTT packet 21 only / page table without block page / complete table - the page walks of the
  *   formatter start from a number no table of decimal pages contains).  Every storyline is also
  *   run in every order of its page transmissions (phase storyline-orders).
+ *   Seed C01 round 6 (TOP index page 900 writing title rows past vbi_page.text[]) added phase
+ *   top-index-titles: the storylines carry two titles per AIT page, but a broadcaster sends up to 46;
+ *   complete TOP services with every pair of title counts 0..46 x 0..46 of the two AIT pages the BTT
+ *   links x 3 title numberings x BTT before / after the tables, then page 900 is fetched with
+ *   sub-page ANY, 0..6 into an exactly sized heap vbi_page (ASan red zone + text[1025..1055] check).
  *   For every packet of every storyline - i.e. for every base packet in the reachable state its
  *   prefix produces - each of the 42 bytes is replaced by each of the 256 values; the rest of
  *   the storyline follows, then every cached page is fetched at Level 3.5 and 1.5, links
